@@ -219,6 +219,50 @@ fn main() {
         let vu = rng.chance(1, 2);
         pair(&mut tr, &server, &fs, &mut rng, "random", &seen, transport, &bytes, cap, &script, vu, json!({}));
     }
+    // 4. state carried from INIT to later requests (Server::vers): servers negotiated at the minors around every version test
+    //    of the handlers, then negative and positive LOOKUP answers and one valuation of every opcode
+    for minor in [0u64, 3, 4, 5, 11, 12, 22, 23, 33, 38] {
+        let fs2 = Arc::new(ScriptedFs::new("s"));
+        let server2 = Server::new(fs2.clone());
+        let mut iv = vharness::wirecodec::Vals::new();
+        iv.insert("major".into(), 7);
+        iv.insert("minor".into(), minor);
+        let mut body = abi.encode("fuse_init_in", &iv);
+        body.truncate(16);
+        let mut h = vharness::wirecodec::Vals::new();
+        h.insert("len".into(), 56);
+        h.insert("opcode".into(), abi.konst("FUSE_INIT"));
+        h.insert("unique".into(), 1);
+        let mut ib = abi.encode("fuse_in_header", &h);
+        ib.extend(body);
+        pair(&mut tr, &server2, &fs2, &mut rng, "neg", "INIT", "fusedev", &ib, 4096, &Ret::Init(0), false, json!({"minor": minor}));
+        for rep in 0..(4 * kwf.max(1)) {
+            let b = wire::build(&abi, &mut rng, "LOOKUP", &[], false);
+            let mut e = wire::rentry(&mut rng);
+            if rep % 2 == 0 {
+                e.inode = 0;
+            }
+            let transport = if rep % 4 < 2 { "fusedev" } else { "virtiofs" };
+            pair(&mut tr, &server2, &fs2, &mut rng, "neg", "LOOKUP", transport, &b.bytes, 4096, &Ret::Entry(e), false,
+                 json!({"minor": minor, "negative": rep % 2 == 0}));
+        }
+        for opname in &ops {
+            if opname == "INIT" || opname == "DESTROY" {
+                continue;
+            }
+            let b = wire::build(&abi, &mut rng, opname, &[], false);
+            if b.bytes.len() > 70_000 {
+                continue;
+            }
+            let script = match b.script.clone() {
+                Ret::Open { handle, opts, .. } => Ret::Open { handle, opts, passthrough: None },
+                Ret::Create { entry, handle, opts, .. } => Ret::Create { entry, handle, opts, passthrough: None },
+                x => x,
+            };
+            let cap = 16 + 160 + b.cap_hint + 4096;
+            pair(&mut tr, &server2, &fs2, &mut rng, "neg", opname, "fusedev", &b.bytes, cap, &script, true, json!({"minor": minor}));
+        }
+    }
     tr.emit(&json!({"e": "End"}));
     tr.flush();
 }
